@@ -22,7 +22,9 @@ theorem gen_no_extraction_failure : Dtn7.Gen.C14.extractionFailures = [] := by d
 
 /-- `SendBundle` assigns the sequence number (unconditionally, as its first statement, before a
 signature is attached) before it creates the descriptor, which precedes `transmit`; `transmit`
-does not touch the IdKeeper and is entered from `SendBundle` only. -/
+does not touch the IdKeeper and is entered from `SendBundle` only. The assignment is
+`IdKeeper.updateUnless` with "the store knows this (scrubbed) ID" as the `taken` predicate
+(`Cfg.code.skipKnown`, /repo 43cf7bc); `update` is the wrapper without a predicate. -/
 theorem gen_update_first :
     Cfg.code.updateFirst =
       (Dtn7.Gen.C14.sendBundleUpdateUnconditional &&
@@ -34,11 +36,19 @@ theorem gen_update_first :
             Dtn7.Gen.C14.sendBundleUpdateIdx < Dtn7.Gen.C14.sendBundleSignIdx)) &&
         !Dtn7.Gen.C14.transmitCallsUpdate &&
         decide (Dtn7.Gen.C14.transmitCallers = ["SendBundle"]) &&
-        decide (Dtn7.Gen.C14.updateCallers = ["SendBundle"])) := by decide
+        decide (Dtn7.Gen.C14.updateCallers = ["SendBundle"])) ∧
+    Cfg.code.skipKnown =
+      (decide (Dtn7.Gen.C14.sendBundleUpdateCall = "idKeeper.updateUnless") &&
+       decide (Dtn7.Gen.C14.sendBundleFirstStmt =
+         "c.idKeeper.updateUnless(bndl, func(bid bpv7.BundleID) bool { _, err := c.store.QueryId(bid.Scrub()) return err == nil })") &&
+       decide (Dtn7.Gen.C14.updateUnlessCallers = ["SendBundle", "update"]) &&
+       decide (Dtn7.Gen.C14.updateWrapperSkeleton = ["idk.updateUnless(bndl, nil)"])) := by decide
 
-/-- `IdKeeper.update`: the mutex is held from before the first to after the last access of the map
-and of the bundle's timestamp, the counter is written into the bundle inside the bracket, and
-`clean` follows (autoClean is set by `NewIdKeeper`). The model's `prog`/`exec` copy this shape. -/
+/-- `IdKeeper.updateUnless`: the mutex is held from before the first to after the last access of the map
+and of the bundle's timestamp, the counter is written into the bundle inside the bracket, the loop that
+takes the next number while the ID is taken sits inside the bracket too (the model's single `stamp` step,
+`stampSeq`/`firstFree`), and `clean` follows (autoClean is set by `NewIdKeeper`). The model's `prog`/`exec`
+copy this shape. -/
 theorem gen_update_locked :
     Dtn7.Gen.C14.updateLocked = Cfg.code.locked ∧ Dtn7.Gen.C14.updateWritesSeq = true ∧
     Dtn7.Gen.C14.updateSkeleton =
@@ -49,6 +59,9 @@ theorem gen_update_locked :
        "else",
        "  idk.data[tpl] = 0",
        "bndl.PrimaryBlock.CreationTimestamp[1] = idk.data[tpl]",
+       "for ; taken != nil && taken(bndl.ID());",
+       "  idk.data[tpl] = idk.data[tpl] + 1",
+       "  bndl.PrimaryBlock.CreationTimestamp[1] = idk.data[tpl]",
        "idk.mutex.Unlock()",
        "if idk.autoClean",
        "  idk.clean()"] ∧
@@ -159,7 +172,7 @@ theorem ids_distinct (subs : Nat → Sub) (A : Nat → Prop) (k0 : Keeper) (σ :
 than the window at every participant's clock reading): under every schedule of these k threads
 that lets all of them reach their number, the k ids are pairwise distinct. This is the full
 statement of the property for the counter, restricted by the retention hypothesis (see
-`retention_gap_witness` for what happens without it). -/
+`retention_gap_witness` for what happens without it, `assigned_number_is_free` for what holds regardless). -/
 theorem ids_distinct_partial (k : Nat) (src : String) (t : Nat) (subs : Nat → Sub) (k0 : Keeper)
     (σ : List Act)
     (hσ : ∀ i, Act.step i ∈ σ → i < k)
@@ -214,14 +227,44 @@ theorem distinct_in_store_and_on_wire (subs : Nat → Sub) (A : Nat → Prop) (k
 /-- Two submissions of node `n` with one creation time. -/
 def twoSubs (time now seq0 : Nat) : Nat → Sub := fun i => ⟨i, ⟨"n", time⟩, seq0, now, [7]⟩
 
+/-- **The number assigned is free** (`assigned_number_is_free`): whatever the store holds and whatever the
+counter says — after a restart, after `clean` dropped the entry — the id that `updateUnless` stamps into
+the bundle is not a key of the store at that moment. No retention hypothesis. -/
+theorem assigned_number_is_free (n : Node) (k : Key) :
+    knows n.store ⟨k.source, k.time, stampSeq Cfg.code n k⟩ = false :=
+  Lemmas.stampSeq_free n k
+
 /-- **D18, residual (known finding)**: a creation time more than a day older than the clock. The
-entry is dropped by the autoClean of the first submission, the second submission gets number 0
-again: same id on the wire, and the second bundle is not filed. -/
-theorem retention_gap_witness :
+entry is dropped by the autoClean of the first submission, the second submission starts from 0 again.
+Since /repo 43cf7bc the stored number is skipped: while the first bundle is in the store the second one
+gets number 1 and is filed… -/
+theorem retention_gap_filed_example :
     let subs := twoSubs 800000000000 (800000000000 + 86400000 + 1) 0
     let n := run Cfg.code subs (Node.init subs Keeper.empty) (seqSchedule Cfg.code 2)
+    (idOf subs n 0).seq = 0 ∧ (idOf subs n 1).seq = 1 ∧ n.store.length = 2 ∧
+    SentIdsDistinct (obsOf n) ∧ FiledOnce [0, 1] (obsOf n) := by decide +kernel
+
+/-- … and before that repair (`Cfg.noSkip`) it got number 0 again: same id on the wire, second bundle not
+filed. The same still happens on the wire when the first bundle has left the store in between (direct
+delivery deletes it; this model's store never forgets, the harness exhibits it: class
+`same-id-on-wire-creation-time-older-than-24h`), and for a bare IdKeeper (`update` without predicate,
+class `idkeeper-same-number-creation-time-older-than-24h`). -/
+theorem retention_gap_witness :
+    let subs := twoSubs 800000000000 (800000000000 + 86400000 + 1) 0
+    let n := run Cfg.noSkip subs (Node.init subs Keeper.empty) (seqSchedule Cfg.noSkip 2)
     idOf subs n 0 = idOf subs n 1 ∧ n.store.length = 1 ∧
     ¬ SentIdsDistinct (obsOf n) ∧ ¬ FiledOnce [0, 1] (obsOf n) := by decide +kernel
+
+/-- **After a restart** (the IdKeeper is empty, the store is not): a clock-less source's second bundle.
+Without the skip it takes the stored bundle's id and is not filed; with it, it is filed under number 1. -/
+theorem restart_witness :
+    let subs := twoSubs 0 800000000000 0
+    let first (c : Cfg) := run c subs (Node.init subs Keeper.empty) (List.replicate (prog c).length (.step 0))
+    let restart (n : Node) : Node := { n with keeper := Keeper.empty }
+    let second (c : Cfg) := run c subs (restart (first c)) (List.replicate (prog c).length (.step 1))
+    (idOf subs (second Cfg.noSkip) 0 = idOf subs (second Cfg.noSkip) 1 ∧ (second Cfg.noSkip).store.length = 1) ∧
+    ((idOf subs (second Cfg.code) 1).seq = 1 ∧ (second Cfg.code).store.length = 2 ∧
+      FiledOnce [0, 1] (obsOf (second Cfg.code))) := by decide +kernel
 
 /-- **D18 as found** (`60*60*24` compared with milliseconds): the same happens with a creation time
 that is 87 s old — and does not with the repaired constant. -/
